@@ -155,13 +155,14 @@ let expected_value bb ssig sexp prec route p =
     | "withprec" | "addsub0" | "mul1" | "muldiv0" | "convint"
     | "mulfac" | "muldivx" | "divself" | "sqrsqrt" | "powi1" | "addtrunc" | "addfloor" | "subceil" | "addround" | "splitpoint"
     | "addfract" | "fromstr" | "ratfloat" -> if fits bb then src bb else None
-    | "fromf64" | "fromf32" | "fromubig" | "fromu64" | "fromi64" -> src bb
+    | "fromf64" | "fromf32" | "reprf64" | "reprf32" | "fromubig" | "fromu64" | "fromi64" -> src bb
     (* really rounded results: the value is not predicted, the invariants and every comparison are judged *)
-    | "r_add" | "r_sub" | "r_mul" | "r_div" | "r_sqr" | "r_sqrt" | "r_powi" | "r_inv" | "r_exp" | "r_ln1p" -> None
     | "same_p" -> src ~ex:MayRound bb
     | "from10" | "from10_p" -> src ~ex:MayRound 10
     | "from2" | "from2_p" -> src ~ex:MayRound 2
     | "from16_p" -> src ~ex:MayRound 16
+    (* really rounded results (route names r_...): the value is not predicted, the invariants and every comparison are judged *)
+    | _ when String.length route > 2 && String.sub route 0 2 = "r_" -> None
     | _ -> (match conv_route route with
             | Some (_, sb) -> src ~ex:MayRound sb
             | None -> raise (Bad ("route-" ^ route)))
